@@ -40,6 +40,24 @@ theorem C10_total_getRecentWALRecords (dir : Dir) (limit : Int) :
     ∃ r, getRecentWALRecords dir limit = .ok r :=
   getRecent_total dir limit
 
+/-- The same for the `os.ReadDir` entries of pg_wal of every kind (fixes/entry/04: only regular files are opened, so a
+FIFO, socket, device or directory with a segment's name cannot make the functions block or fail). -/
+theorem C10_total_directory_entries (es : Entries) (limit : Int) :
+    (∃ r, scanWALDirectoryOf es = .ok r) ∧ (∃ r, getRecentWALRecordsOf es limit = .ok r) :=
+  ⟨scanWALDirectory_total _, getRecent_total _ limit⟩
+
+/-- **Allocation of the reassembly (fixes/wal/11).**  The only buffer parseWALPage allocates by a length read from the
+input, `make([]byte, 0, totalLen)` for a record continued on the following pages, is requested only when
+`totalLen - len(recData) <= len(following)`: whatever xl_tot_len says (up to 2^32 − 1), the bytes handed on to
+parseXLogRecord are never more than the rest of the page plus the following pages, i.e. never more than the input. -/
+theorem C10_reassembly_bounded (tail following out : Bytes) (h : recordBytes tail following = .ok out) :
+    out.length ≤ tail.length + following.length :=
+  (recordBytes_length tail following out h).1
+
+/-- the hypothesis of `C10_reassembly_bounded` is satisfiable: xl_tot_len = 2^32 − 1 with nothing following — the rest of
+the page is handed on as it is -/
+example : recordBytes [0xFF, 0xFF, 0xFF, 0xFF, 1, 2, 3, 4] [] = .ok [0xFF, 0xFF, 0xFF, 0xFF, 1, 2, 3, 4] := by decide +kernel
+
 /-- What fixes/entry/01 repaired: before it (Model/WalOrig.lean `getRecentWALRecords`, the same code without the
 clamp) a negative limit made `allRecords[len(allRecords)-limit:]` go out of range even for an empty directory
 (replayed on the then code: `impl-wal one waldir -1` panicked with "slice bounds out of range"); with the clamp the
